@@ -125,6 +125,67 @@ struct dyn_deferred_rtti : virtual policy::deferred_static_rtti {
     }
 };
 
+// RTTI facet for the generator ops: class ids are pointers to std::type_info of tag types, so
+// that the generator can demangle names; scripts use tag numbers, translated by IdMap
+template<int I>
+struct Tag {};
+constexpr int kTags = 64;
+extern type_id g_tag_ids[kTags];
+
+struct tag_rtti : virtual policy::rtti {
+    template<typename T>
+    static type_id static_type() {
+        if constexpr (std::is_same_v<T, Obj>) {
+            return g_obj_static_id;
+        } else {
+            return reinterpret_cast<type_id>(&typeid(T));
+        }
+    }
+    template<typename T>
+    static type_id dynamic_type(const T& obj) {
+        return obj.type;
+    }
+    template<typename Stream>
+    static void type_name(type_id type, Stream& stream) {
+        stream << reinterpret_cast<const std::type_info*>(type)->name();
+    }
+    static type_id type_index(type_id type) {
+        return type;
+    }
+    template<typename D, typename B>
+    static D dynamic_cast_ref(B&& obj) {
+        return static_cast<D>(obj);
+    }
+};
+
+// translation between script ids and type ids; specialised for the generator policies
+template<class Policy, class = void>
+struct IdMap {
+    static constexpr bool gen = false;
+    static type_id in(type_id n) {
+        return n;
+    }
+    static type_id out(type_id p) {
+        return p;
+    }
+};
+
+template<class Policy>
+struct IdMap<Policy, std::enable_if_t<std::is_base_of_v<tag_rtti, Policy>>> {
+    static constexpr bool gen = true;
+    static type_id in(type_id n) {
+        return n < kTags ? g_tag_ids[n] : n;
+    }
+    static type_id out(type_id p) {
+        for (int i = 0; i < kTags; ++i) {
+            if (g_tag_ids[i] == p) {
+                return i;
+            }
+        }
+        return p;
+    }
+};
+
 // deferred ids: a pool of functions returning ids from a table
 constexpr int kIdFns = 512;
 extern type_id g_id_table[kIdFns];
@@ -341,6 +402,10 @@ struct Engine : EngineBase {
     }
 
     void install_handlers();
+    void do_offsets();
+    void do_encode();
+    void do_decode();
+    std::string last_encoded_;
     void do_update();
     void do_dump();
     void do_call(const std::vector<std::string>& tok, bool follow_next, int route);
